@@ -366,6 +366,25 @@ def check(ctx):
         targets[tgt] = nm
         ctx.sample({"kind": nm, "reactor_type": k["rt_variant"], "target": [str(x) for x in tgt]})
 
+    # the system that applies a whole bundle: handle prepared for the given system and mode, every trigger of the
+    # given bundle registered with that handle
+    try:
+        rr = A.free_fn(prog, "register_reactors")
+        ctx.touch(rr)
+        pc = [(b, t) for b, t, fr in rr.iter_calls() if fr and lib.tail(mir.fn_name(fr), 2) == "ReactorMode::prepare"]
+        rt = [(b, t) for b, t, fr in rr.iter_calls() if fr and lib.tail(mir.fn_name(fr), 1) == "register_triggers"]
+        ok = len(pc) == 1 and len(rt) == 1
+        if ok:
+            ok = lib.originates_from_arg(rr, pc[0][1]["args"][0], 1, (".0", ".2")) and lib.originates_from_arg(rr, pc[0][1]["args"][2], 1, (".0", ".1")) \
+                and lib.originates_from_arg(rr, rt[0][1]["args"][0], 1, (".0", ".0")) and lib.originates_from_call(rr, rt[0][1]["args"][2], pc[0][0])
+            cnt, _, _ = lib.event_counts(rr, [rt[0][0]])
+            ok = ok and cnt == {1}
+        ctx.check(ok, "C01.a", "register_reactors:registers-given-bundle-with-prepared-handle", "%s:%d" % (rr.file, rr.line),
+                  "mode.prepare(despawner, syscommand) then triggers.register_triggers(commands, &handle) exactly once",
+                  "register_reactors does not register the given bundle exactly once with the handle prepared for the given system and mode")
+    except mir.AnchorLost as e:
+        ctx.fail("C01.a", "anchor-lost:register_reactors", "", str(e))
+
     # ---- C01.b one command per registration ----
     n_reg_loops, n_drain = 0, 0
     for (body, L, events, src) in loops:
